@@ -173,6 +173,15 @@ class Ctx:
         return self._pool
 
     def close(self):
+        # grandchildren first (pool workers a case may have left running: a library that keeps a pool alive, a timed-out gate) -
+        # once their parents are gone they can no longer be found
+        try:
+            _kill_descendants(spare=[w.pid for w in getattr(self._pool, "_pool", [])] if self._pool is not None else [])
+        except Exception:  # noqa
+            pass
+        self._close()
+
+    def _close(self):
         if self._pool is not None:
             self._pool.terminate()
             self._pool.join()
@@ -405,6 +414,39 @@ os._exit(0)
 # ---------------------------------------------------------------------------
 # one pristine forked child per case (process-level checks: C12, C14, C15)
 # ---------------------------------------------------------------------------
+def _kill_descendants(spare=()):
+    """kill every process whose ancestor is this one (Linux /proc scan), except the direct children listed in `spare`
+    (their own descendants are killed)"""
+    import signal
+
+    me = os.getpid()
+    try:
+        kids = {}
+        for d in os.listdir("/proc"):
+            if d.isdigit():
+                try:
+                    with open("/proc/%s/stat" % d) as fh:
+                        st = fh.read()
+                    ppid = int(st[st.rindex(")") + 2:].split()[1])
+                    kids.setdefault(ppid, []).append(int(d))
+                except (OSError, ValueError, IndexError):
+                    continue
+        todo, doomed = [me], []
+        while todo:
+            for k in kids.get(todo.pop(), []):
+                doomed.append(k)
+                todo.append(k)
+        for k in doomed:
+            if k in spare:
+                continue
+            try:
+                os.kill(k, signal.SIGKILL)
+            except OSError:
+                pass
+    except OSError:
+        pass
+
+
 def forked_map(modname, fnname, cases, tmp_root, nproc=None, timeout=900):
     """Run fn(case) for every case, each in its OWN child forked from this process (which has
     imported bldfm but never solved, never started a thread pool).  Up to nproc children run
@@ -431,6 +473,7 @@ def forked_map(modname, fnname, cases, tmp_root, nproc=None, timeout=900):
                     d = tempfile.mkdtemp(prefix="c%d_" % os.getpid(), dir=tmp_root)
                     os.chdir(d)
                     res = _call((modname, fnname, cases[nxt]))
+                    _kill_descendants()  # e.g. pool workers the library left running: they hold the result pipe open
                     data = pickle.dumps(res)
                     mv = memoryview(data)
                     while len(mv):
